@@ -7,6 +7,13 @@ mod sim;
 mod hist;
 mod c01;
 mod c05;
+mod c07;
+mod syncp;
+mod codec;
+mod c18;
+
+#[global_allocator]
+static GLOBAL: codec::Counting = codec::Counting;
 
 use std::time::Instant;
 
@@ -14,6 +21,7 @@ fn main() {
     let args: Vec<String> = std::env::args().collect();
     if args.len() < 2 { eprintln!("usage: yv-harness <property> [--tier t] [--seed n] [--out f]"); std::process::exit(2); }
     let prop = args[1].clone();
+    if prop == "decode-worker" { codec::worker_main(); return; }
     let mut tier = "quick".to_string();
     let mut seed: u64 = 1;
     let mut out: Option<String> = None;
@@ -30,13 +38,18 @@ fn main() {
         i += 1;
     }
     // panics inside catch_unwind are expected for some inputs: keep stderr quiet
-    std::panic::set_hook(Box::new(|_| {}));
+    report::install_panic_hook();
     let workers: usize = std::env::var("YV_WORKERS").ok().and_then(|s| s.parse().ok()).unwrap_or(16);
     let t0 = Instant::now();
     let _ = &replay;
     let rep = match prop.as_str() {
         "C16" => c16::run(&tier, seed, workers),
         "C05" => { let mut r = c05::run(&tier, seed, workers); r.merge(c01::run("C05", &tier, seed, workers)); r }
+        "C07" => c07::run(&tier, seed, workers),
+        "C18" => c18::run(&tier, seed, workers),
+        "C09" => codec::run_c09(&tier, seed, workers),
+        "C10" => codec::run_c10(&tier, seed, workers),
+        "C06" | "C08" | "C13" | "C15" => syncp::run(&prop, &tier, seed, workers),
         "C01" | "C02" | "C04" => c01::run(&prop, &tier, seed, workers),
         _ => { eprintln!("unknown property {}", prop); std::process::exit(2); }
     };
